@@ -867,8 +867,10 @@ class HtmlTreeView(HtmlView):
       items = {}
       for k, v in value.sym_items():
         # Apply frozen filter.
+        # NOTE: a list whose element spec is frozen still shows its elements.
         field = value.sym_attr_field(k)
-        if hide_frozen and field and field.frozen:
+        if (hide_frozen and field and field.frozen
+            and not isinstance(value, list)):
           continue
 
         # Apply inferred value.
